@@ -163,6 +163,13 @@ class EmitInterp(Interp):
             if op == ">=":
                 return not l.neg
             raise Unanalysable("comparison of a shift known only by sign")
+        if isinstance(r, SignS) and l == 0 and op in ("<", ">=", "<=", ">"):
+            # 0 > s == s < 0 ;  0 <= s == s >= 0
+            if op == ">":
+                return r.neg
+            if op == "<=":
+                return not r.neg
+            raise Unanalysable("comparison of a shift known only by sign")
         if isinstance(l, OffS) and isinstance(r, int) and op in ("<", ">="):
             raise Unanalysable("sign of a symbolic shift")
         return super().binary(op, l, r, node)
